@@ -38,7 +38,7 @@ CAUSES = {
 
 class C08(Check):
     prop = "C08"
-    quick_runs = 96
+    quick_runs = 192
     thorough_runs = 3000
     run_wall = 600.0
     rule = ("one run = one connection brought to a seeded point of its life (connecting, CER sent, accepted without CER, "
@@ -87,7 +87,8 @@ class C08(Check):
                     "after": rng.choice([0.0, 0.0, 0.0005, 0.005, 0.05]), "at": rng.randrange(0, 24),
                     "dur": rng.choice([0.05, 0.5, 1.5])},
                 "func_stalls": draw_func_stalls(rng),
-                "sched": sched, "knobs": knobs, "max_steps": 4_000_000,
+                "sched": sched, "knobs": knobs,
+                "max_steps": 4_000_000 + int(min(12_000_000, 400.0 / knobs["STATE_MACHINE_TICKER"])),
                 "net": {"max_latency": rng.choice([0.0005, 0.003]), "connect_timeout": ctimeout,
                         "personality": rng.choice(["linux", "linux", "linux", "windows"]) if point == "connecting" else "linux"},
                 "restart": True, "watchdog": 30, "horizon": 90.0}
@@ -351,6 +352,7 @@ class C08(Check):
                                   (w.state() == "Closed" and all(t.state == "done" for t in old_threads)), D, poll=0.0005):
                     w.peer.b.update({"answer_cer": "valid", "answer_dpr": True})
                     w.net.cfg.connect_outcome = "ack"
+                    w.net.cfg.personality = "linux"    # the restart runs in a cooperative environment
                     w.net.cfg.connect_delay = (0.0005, 0.004)
                     w.auto_peer_cer = True
                     w.cer_ids = (0x113, 0x224)
@@ -433,6 +435,7 @@ class C08(Check):
             # ---- restart on the same object ---------------------------------
             w.peer.b.update({"answer_cer": "valid", "answer_dpr": True})
             w.net.cfg.connect_outcome = "ack"
+            w.net.cfg.personality = "linux"    # the restart runs in a cooperative environment
             w.net.cfg.connect_delay = (0.0005, 0.004)
             w.auto_peer_cer = True
             w.cer_ids = (0x111, 0x222)
